@@ -6,7 +6,9 @@ package sim
 import (
 	"fmt"
 	"hash/fnv"
+	"os"
 	"sort"
+	"strconv"
 	"strings"
 )
 
@@ -157,7 +159,20 @@ func (t *T) Weighted(w ...int) int {
 	return len(w) - 1
 }
 
+func init() {
+	if v := os.Getenv("VERIF_MAXEV"); v != "" {
+		if n, err := strconv.Atoi(v); err == nil {
+			defaultMaxEv = n
+		}
+	}
+}
+
+var defaultMaxEv = 400
+
 func (t *T) Logf(format string, a ...any) {
+	if t.maxEv == 400 && defaultMaxEv != 400 {
+		t.maxEv = defaultMaxEv
+	}
 	if len(t.Events) < t.maxEv {
 		t.Events = append(t.Events, fmt.Sprintf(format, a...))
 	} else if len(t.Events) == t.maxEv {
